@@ -102,6 +102,8 @@ PROPS['C07'] = dict(level='model_checking',
   outside='operands near INT64 limits (overflow is undefined there); io_epoll/io_uring kernel timers',
   harnesses=[SEQ('clock_' + n, 'C07_clock.cpp', 'h_' + n, timeout=1800, tier='thorough', desc='monotonic_clock::time_point ' + n) for n in ('normalize', 'add_sub', 'order')] +
    [H('timerq_n%d_c%d' % (n, c), 'C07_timerq.cpp', ['h_worker', 'h_main'], 44, tier='thorough', timeout=2400, opts=dict(params=[n, c], thread_of_body={'0': 0}), desc='timed_single_thread_context: %d timers with symbolic due times%s' % (n, ', last one cancelled' if c else '')) for n in (2,) for c in (0, 1)] +
+   [H('timer_race_due%d_stop%d' % (d, c), 'C07_timer_race.cpp', ['h_worker', 'h_main'], 40, opts=dict(params=[d, c], thread_of_body={'0': 0}, prune=(0 if c else 1)), desc='timed_single_thread_context: start() of a timer due at %d racing the timer thread%s (minimal outer stop source; receiver frees the op)' % (d, ', then a stop request' if c else '')) for d in (0,) for c in (0, 1)] +
+   [H('timer_race_due50_stop1', 'C07_timer_race.cpp', ['h_worker', 'h_main'], 40, tier='thorough', timeout=2400, opts=dict(params=[50, 1], thread_of_body={'0': 0}), desc='timed_single_thread_context: timer due at 50 started, then a stop request races the timer thread')] +
    [H('timerq_seq_n3_c%d' % c, 'C07_timerq.cpp', [], 0, setup='h_seq', final='h_final', opts=dict(params=[3, c, 1], feas=1, feas_at=12, max_visits=200), desc='timed_single_thread_context, sequential: 3 timers with symbolic due times started in order%s, then the run loop executes them (clock jumps to deadlines)' % (', timer %d cancelled first' % (c - 1) if c else '')) for c in (0, 1, 2, 3)])
 
 PROPS['C18'] = dict(level='model_checking',
